@@ -64,10 +64,13 @@ def pristine():
     r, d = find_zerox(sig, p, t)
     sigz = S.word_signal('aaazzzzaaa')            # a gated recording: cycles lying entirely inside an exact-zero stretch
     dfz = compute_shape_features(sigz, FS, FR)
+    sigL = S.long_signal('@E')[:1500]             # two recordings of more than 1000 samples that differ only in the interior
+    sigL2 = sigL.copy()
+    sigL2[600:700] += 3.
     bufA = S.word_signal('aadaaazzaaaadaan')
     bufB = 2.0 * S.word_signal('bbnbbdabbbzbbeaa') + 1.0
     buf = np.zeros(len(bufA))
-    return dict(sigz=sigz, dfz=dfz, buf=buf, bufA=bufA, bufB=bufB, dfnb=dfnb, bk8=bk8, dfs_off=dfs_off, dfc_off=dfc_off, fek_empty=fek_empty, fek_other=fek_other, sig=sig, thr=thr, thra=thra, thram=thram, bk=bk, bkm=bkm, bkfull=bkfull, fek=fek, sigs2=sigs2, sigs3=sigs3,
+    return dict(sigL=sigL, sigL2=sigL2, sigz=sigz, dfz=dfz, buf=buf, bufA=bufA, bufB=bufB, dfnb=dfnb, bk8=bk8, dfs_off=dfs_off, dfc_off=dfc_off, fek_empty=fek_empty, fek_other=fek_other, sig=sig, thr=thr, thra=thra, thram=thram, bk=bk, bkm=bkm, bkfull=bkfull, fek=fek, sigs2=sigs2, sigs3=sigs3,
                 cfk=cfk, cfka=cfka, cfkl=cfkl, cfkl2=cfkl2, dfc=dfc, dft=dft, dfa=dfa, dfs=dfs, p=p, t=t, r=r, d=d)
 
 
@@ -124,6 +127,15 @@ def alphabet():
         'percons_z': lambda s: compute_period_consistency(s['dfz']),
         'burstfeat_z': lambda s: compute_burst_features(s['dfz'], s['sigz']),
         'cf_z': lambda s: compute_features(s['sigz'], FS, FR, threshold_kwargs=s['thr']),
+        # near-identical inputs / settings in one process: anything keyed on an abbreviated or truncated description collides
+        'amp_longA': lambda s: compute_features(s['sigL'], 500, (8, 12), burst_method='amp', threshold_kwargs=s['thra'], burst_kwargs=s['bk']),
+        'amp_longB': lambda s: compute_features(s['sigL2'], 500, (8, 12), burst_method='amp', threshold_kwargs=s['thra'], burst_kwargs=s['bk']),
+        'cf_longA': lambda s: compute_features(s['sigL'], 500, (8, 12), threshold_kwargs=s['thr']),
+        'cf_longB': lambda s: compute_features(s['sigL2'], 500, (8, 12), threshold_kwargs=s['thr']),
+        'cf_band6.5': lambda s: compute_features(s['sig'], FS, (6.5, 14), threshold_kwargs=s['thr']),
+        'cf_band6.25': lambda s: compute_features(s['sig'], FS, (6.25, 14.75), threshold_kwargs=s['thr']),
+        'cf_fs64.5': lambda s: compute_features(s['sig'], 64.5, FR, threshold_kwargs=s['thr']),
+        'shape_nc3.5': lambda s: compute_shape_features(s['sig'], FS, FR, n_cycles=3.5),
         # TWINS: the same call with equal-valued but distinct argument objects (strings built at run time, options after a pickle
         # round trip, the array copied): the result depends on argument VALUES only
         'cf_trough_tw': lambda s: compute_features(s['sig'].copy(), int(str(FS)), tuple(float(v) for v in FR), center_extrema=_fresh_str('trough'),
@@ -214,13 +226,13 @@ def alphabet():
     return A
 
 
-NAMES = ['ampcons_z', 'percons_z', 'burstfeat_z', 'cf_z', 'cf_trough_tw', 'cf_amp_tw', 'shape_t_tw', 'h_rename_tw', '2d_dict_tw', '2d_none_tw', 'h_rename_nosamp', 'h_rename', 'h_split', 'h_flatten', 'h_detect_c', 'h_detect_a', 'h_minrun', 'burstfeat_c_off', 'edges_off',
+NAMES = ['amp_longA', 'amp_longB', 'cf_longA', 'cf_longB', 'cf_band6.5', 'cf_band6.25', 'cf_fs64.5', 'shape_nc3.5', 'ampcons_z', 'percons_z', 'burstfeat_z', 'cf_z', 'cf_trough_tw', 'cf_amp_tw', 'shape_t_tw', 'h_rename_tw', '2d_dict_tw', '2d_none_tw', 'h_rename_nosamp', 'h_rename', 'h_split', 'h_flatten', 'h_detect_c', 'h_detect_a', 'h_minrun', 'burstfeat_c_off', 'edges_off',
          'limit_off', 'epoch_off', 'mono_off', 'cf_fek_empty', 'shape_fek_other', 'extrema_fk_empty', 'cf_fail_t', 'cf_fail_amp', 'shape_fail_t', 'amp_buf_A', 'amp_buf_B', 'cf_default', 'cf_default_t', 'cf_amp_default', 'cf_amp_nothr_m8', 'edges_noburst', 'cf_buf_A', 'cf_buf_B', 'shape_buf_B', 'cf_cycles', 'cf_trough', 'cf_amp', 'cf_amp_m', 'cf_amp_t', 'cf_nosamp', 'shape', 'shape_t', 'cyclepoints',
          'burstfeat_c', 'burstfeat_a', 'ampfrac', 'ampcons', 'percons', 'mono', 'bfrac', 'extrema', 'zerox', 'phase',
          '2d_dict', '2d_amp', '2d_list', '2d_none', '2d_none_list', '3d', '3d_1', '3d01', 'edges', 'edges_t', 'limit',
          'limit_t', 'epoch', 'epoch_t', 'drop', 'plt_summary', 'plt_summary_t', 'plt_summary_a', 'plt_param', 'plt_cpdf',
          'plt_cparr', 'plt_hist', 'plt_cat']
-CORE = ['ampcons_z', 'cf_trough_tw', 'h_rename_nosamp', 'burstfeat_c_off', 'cf_fek_empty', 'cf_fail_t', 'cf_default', 'cf_amp_nothr_m8', 'edges_noburst', 'cf_buf_A', 'cf_buf_B',
+CORE = ['amp_longB', 'cf_band6.5', 'ampcons_z', 'cf_trough_tw', 'h_rename_nosamp', 'burstfeat_c_off', 'cf_fek_empty', 'cf_fail_t', 'cf_default', 'cf_amp_nothr_m8', 'edges_noburst', 'cf_buf_A', 'cf_buf_B',
         'cf_amp_m', '2d_none_list', 'limit_t']
 REF = {}          # call name -> fingerprint hash of its fresh-state result (filled before the workers are forked)
 
@@ -234,6 +246,14 @@ def result_fp(r):
     return h64(repr(fingerprint(r)))
 
 
+_BLOB = [None]        # pickled pristine argument set, built ONCE in a dedicated child process (see spaces())
+
+
+def _make_blob():
+    import pickle
+    return pickle.dumps(pristine())
+
+
 def run_history(hist):
     """Executed in a fresh child: returns a list of per-step dicts."""
     import warnings
@@ -242,7 +262,13 @@ def run_history(hist):
     matplotlib.use('Agg')
     import matplotlib.pyplot as plt
     A = alphabet()
-    s = pristine()
+    # the shared argument objects were built in ANOTHER process: this one has not executed a single library call before the history
+    # starts (module-level caches, registries and defaults are in their import-time state)
+    if _BLOB[0] is not None:
+        import pickle
+        s = pickle.loads(_BLOB[0])
+    else:
+        s = pristine()
     f0 = state_fp(s)
     base = {k: fingerprint(v) for k, v in s.items() if k != 'buf'}
     steps = []
@@ -290,6 +316,11 @@ def evaluate(case):
 
 def spaces(tier, seed):
     # fresh-state reference results, each computed in its own fresh child of this (never contaminated) process
+    if _BLOB[0] is None:
+        status, blob = run_in_child(_make_blob, (), timeout=240)
+        if status != 'ok':
+            raise RuntimeError('could not build the pristine argument set: %s' % (blob,))
+        _BLOB[0] = blob
     if not REF:
         for name in NAMES:
             status, steps = run_in_child(run_history, ([name],), timeout=240)
